@@ -90,8 +90,21 @@ def r1(ctx):
                 out.append(n)
         return out
 
+    alias_names = set()
+    for a in walk_no_nested(f):
+        if isinstance(a, ast.Assign) and (_is_entry(a.value, pathvar) or any(_is_entry(t, pathvar) for t in a.targets)):
+            alias_names |= {t.id for t in a.targets if isinstance(t, ast.Name)}
+
+    def alias_uses(node):
+        e = own_expr(node)
+        if e is None:
+            return []
+        return [n for n in walk_no_nested(e) if isinstance(n, ast.Subscript) and isinstance(n.value, ast.Name) and n.value.id in alias_names]
+
     def step(state, node, label):
         env, st, trail = state
+        # aliases of the entry (`entry = self.openHandles[path]`): name -> still the registered dict?  kept in env under a reserved key
+        fresh = env.get('<aliases>', frozenset())
         if node.kind == 'test' and label in ('true', 'false'):
             v = eval3(node.ast.test, env)
             if v is not UNK and bool(v) != (label == 'true'):
@@ -113,11 +126,23 @@ def r1(ctx):
         for u in uses(node):
             if st != PRESENT:
                 violations.append((node, st, trail + (repr(node),)))
+        for u in alias_uses(node):
+            if u.value.id not in fresh:
+                violations.append((node, f'stale alias `{u.value.id}`', trail + (repr(node),)))
         env = const_env_step(env, node)
         e = own_expr(node)
         if e is not None:
-            if node.kind == 'stmt' and isinstance(node.ast, ast.Assign) and any(_is_entry(t, pathvar) for t in node.ast.targets):
-                st = PRESENT
+            if node.kind == 'stmt' and isinstance(node.ast, ast.Assign):
+                tg = node.ast.targets
+                rebinds = any(_is_entry(t, pathvar) for t in tg)
+                names_t = {t.id for t in tg if isinstance(t, ast.Name) and t.id in alias_names}
+                if rebinds:
+                    st = PRESENT
+                    fresh = frozenset(names_t)             # the entry is a new object: only names bound in this very statement denote it
+                elif names_t and _is_entry(node.ast.value, pathvar):
+                    fresh = fresh | names_t
+                elif names_t:
+                    fresh = fresh - names_t
             for c in node_calls(node):
                 nm = src(c.func)
                 if nm == 'self.close':
@@ -128,6 +153,10 @@ def r1(ctx):
                     st = ABSENT
                 elif nm in ('self.openHandles.clear',):
                     st = ABSENT
+            if st != PRESENT:
+                fresh = frozenset()                     # whatever the aliases point to is no longer (known to be) the registered entry
+        env = dict(env)
+        env['<aliases>'] = fresh
         return (env, st, trail + (repr(node) + (f' [{st}]' if st != PRESENT else ''),))
 
     handler_states = set()
@@ -144,15 +173,16 @@ def r1(ctx):
     uniq = {}
     for node, st, trail in violations:
         uniq.setdefault((node.lineno, st), trail)
-    n_uses = sum(1 for n in walk_no_nested(f) if _is_entry(n, pathvar))
+    n_uses = sum(1 for n in walk_no_nested(f) if _is_entry(n, pathvar)) + sum(1 for n in walk_no_nested(f) if isinstance(n, ast.Subscript) and isinstance(n.value, ast.Name) and n.value.id in alias_names)
     ctx.need('C19-R1', n_uses, 4, 'uses of self.openHandles[path]')
     if not uniq:
         ctx.emit('C19-R1', True, HANDLELIM, f, f'{len(paths)} paths (retry loop unrolled twice, exception edge from every call): all {n_uses} uses of '
                  f'self.openHandles[{pathvar}] occur with the entry present', key='entry-present-on-use')
     for (line, st), trail in sorted(uniq.items()):
         node = [n for n, s, t in violations if n.lineno == line][0]
-        ctx.emit('C19-R1', False, HANDLELIM, node.ast, f'self.openHandles[{pathvar}] is used while the entry is {st} '
-                 f'(after close() dropped every entry / before it was created): KeyError on the retry path',
+        ctx.emit('C19-R1', False, HANDLELIM, node.ast, (f'the entry is written through a {st}: the dictionary it names was dropped from / replaced in self.openHandles (close-all-and-retry), so the '
+                 f'handle and the record land in an orphaned entry that is never closed' if str(st).startswith('stale alias') else
+                 f'self.openHandles[{pathvar}] is used while the entry is {st} (after close() dropped every entry / before it was created): KeyError on the retry path'),
                  key='entry-present-on-use', witness={'path': ' ; '.join(trail[-14:])},
                  what='HandleLimiter.write uses self.openHandles[path] after close() removed it (retry after open failure raises KeyError)')
     ctx.exhaustive['C19-R1'] = False
@@ -560,6 +590,50 @@ def r6(ctx):
     ctx.emit('C19-R6', not bad, HANDLELIM, bad[0][1] if bad else cls, f'{n} division / modulo operations in HandleLimiter, none by a configuration value' if not bad else
              f'{CLS}.{bad[0][0]} computes `{src(bad[0][1])[:50]}`: the setting 0 (a legal value) raises ZeroDivisionError while a record is written', key='no-division-by-configuration',
              what='HandleLimiter divides by a configuration value that may be 0')
+
+
+def mate_labels(ctx):
+    """the mate labels the per-cell branch of FastqHandle.write zips the records with, for pairedEnd True / False (single_cell on): {flag: tuple | None}
+    plus the loop.  The labels may be a literal or an attribute the constructor sets."""
+    from ..consteval import fold, TOP
+    from ..util import explore, mk_atoms
+    w = ctx.fn(FQHANDLE, 'FastqHandle.write')
+    init = ctx.fn(FQHANDLE, 'FastqHandle.__init__')
+    loops = [l for l in walk_no_nested(w) if isinstance(l, ast.For) and any(isinstance(c, ast.Call) and src(c.func) == 'self.handles.write' for c in ast.walk(l))]
+    if len(loops) != 1 or not (isinstance(loops[0].iter, ast.Call) and dotted(loops[0].iter.func) == 'zip' and len(loops[0].iter.args) == 2):
+        return None, None
+    lab = loops[0].iter.args[0]
+    out = {}
+    for paired in (True, False):
+        v = fold(lab, {})
+        if v is TOP and isinstance(lab, ast.Attribute) and isinstance(lab.value, ast.Name) and lab.value.id == 'self':
+            vals = set()
+            for r in explore(init.body, mk_atoms({'single_cell': True, 'self.sc': True, 'pairedEnd': paired, 'self.pe': paired}), env0={'pairedEnd': paired, 'single_cell': True}):
+                st = [vv for t, vv, k in r['stores'] if t == f'self.{lab.attr}']
+                if st:
+                    x = fold(ast.parse(st[-1], mode='eval').body, {'pairedEnd': paired, 'single_cell': True})
+                    vals.add(tuple(x) if isinstance(x, (tuple, list)) else None)
+                else:
+                    vals.add(None)
+            v = list(vals)[0] if len(vals) == 1 else TOP
+        out[paired] = tuple(v) if isinstance(v, (tuple, list)) else None
+    return out, loops[0]
+
+
+@rule('C19', 'C19-R7', 'the per-cell writer writes every mate it is given: the mate labels it zips the records with name both mates whatever the pairedEnd flag says '
+                       '(zip stops at the shorter sequence - with one label the second record of every pair is dropped without a trace)')
+def r7(ctx):
+    labs, loop = mate_labels(ctx)
+    if labs is None:
+        ctx.emit('C19-R7', False, FQHANDLE, ctx.fn(FQHANDLE, 'FastqHandle.write'), 'per-cell write loop `for label, record in zip(labels, records)` not found', key='sc-all-mates', undecided=True)
+        return
+    if any(v is None for v in labs.values()):
+        ctx.emit('C19-R7', False, FQHANDLE, loop, f'mate labels `{src(loop.iter.args[0])}` could not be evaluated ({labs})', key='sc-all-mates', undecided=True)
+        return
+    bad = [p_ for p_, v in labs.items() if len(v) < 2 or len(set(v)) != len(v)]
+    ctx.emit('C19-R7', not bad, FQHANDLE, loop, f'per-cell writer labels the records {labs[True]} (pairedEnd) / {labs[False]} (not pairedEnd)' +
+             ('' if not bad else f': with pairedEnd={bad[0]} only {len(labs[bad[0]])} label - the second record handed to write() is never written'), key='sc-all-mates',
+             witness={'pairedEnd': bad[0], 'labels': list(labs[bad[0]])} if bad else None, what='FastqHandle.write (per-cell mode) drops the second mate')
 
 
 META = {
